@@ -357,6 +357,47 @@ def r5_predicates(ctx, prog, rule_id='C11.R5'):
         r.ok(f['qname'], 'last session of the slot', 'allSessionsClosed is called when no other session of the slot is open', file=f['file'], line=f['line'])
 
 
+def r6_store_key(ctx, prog, rule_id='C11.R6'):
+    """Session objects are destroyed by SessionObjectStore::sessionClosed(hSession) with the handle C_CloseSession received.  They are found again only if they were created under that
+    same handle: every SessionObjectStore::createObject call passes the CK_SESSION_HANDLE parameter of the API call (not an internal session number)."""
+    r = ctx.rule(rule_id, 'session objects are created under the session handle that C_CloseSession will present', floor=3, engine='E2 value following')
+    closers = [c for g in prog.functions.values() if g.get('class') == 'SoftHSM' for c in calls(g['body']) if (c.get('callee') or '').startswith('SessionObjectStore::sessionClosed')]
+    for g in sorted(prog.functions.values(), key=lambda g: (g['file'], g['line'])):
+        if g.get('class') != 'SoftHSM':
+            continue
+        hs = [pp['var']['name'] for pp in g['params'] if (pp.get('type') or '') == 'CK_SESSION_HANDLE']
+        for c in calls(g['body']):
+            q = c.get('callee') or ''
+            if q.startswith('SessionObjectStore::sessionClosed'):
+                ctx.analysed(g)
+                a = canon(c['args'][0])
+                if hs and a == hs[0]:
+                    r.ok(g['qname'], 'sessionClosed', a, file=g['file'], line=c['l'])
+                else:
+                    r.violation(g['qname'], 'sessionClosed', 'the store is told that session %s closed, which is not the handle this call received (%s)' % (a, hs[0] if hs else '-'), file=g['file'], line=c['l'])
+        if not any((c.get('callee') or '').startswith('SessionObjectStore::createObject') for c in calls(g['body'])):
+            continue
+        ctx.analysed(g)
+        o = Outcomes(g, prog, cenv={'isInitialised': 1}, record_calls={'createObject'})
+        o.CAP = 48
+        o.LOOP_ROUNDS = 1
+        o.go()
+        r.paths += len(o.outcomes)
+        evs = sorted({e for oc in o.outcomes for e in oc['events'] if e[0] == 'call' and e[1] == 'createObject' and len(e[2]) == 4}, key=lambda e: e[3])
+        site = 'SessionObjectStore::createObject'
+        if not evs:
+            r.undecided(g['qname'], site, 'call not reached', file=g['file'], line=g['line'])
+            continue
+        bad = [e for e in evs if not hs or e[2][2] != hs[0]]
+        if bad:
+            r.violation(g['qname'], site, 'the session object is created under %s instead of the session handle of this call (%s): SessionObjectStore::sessionClosed(hSession) will not find it when the session closes, the object outlives its session'
+                        % (bad[0][2][2], hs[0] if hs else '-'), file=g['file'], line=bad[0][3])
+        else:
+            r.ok(g['qname'], site, 'created under %s' % hs[0], file=g['file'], line=evs[0][3])
+    if not closers:
+        r.undecided('SoftHSM', 'sessionClosed', 'no caller of SessionObjectStore::sessionClosed found', file='', line=0)
+
+
 def run(ctx):
     prog = ctx.prog('ossl-file')
     r1_counter(ctx, prog)
@@ -364,9 +405,12 @@ def run(ctx):
     r3_validate(ctx, prog)
     r4_registration(ctx, prog)
     r5_predicates(ctx, prog)
+    r6_store_key(ctx, prog)
 
 
 MUTANTS = [
+    dict(name='createobject-session-object-under-internal-handle', rule='C11.R6', file='src/lib/SoftHSM.cpp', after='CK_RV SoftHSM::CreateObject(',
+         old='object = sessionObjectStore->createObject(slot->getSlotID(), hSession, isPrivate != CK_FALSE);', new='object = sessionObjectStore->createObject(slot->getSlotID(), session->getHandle(), isPrivate != CK_FALSE);'),
     dict(name='counter-decrement-on-destroy', rule='C11.R1', file='src/lib/handle_mgr/HandleManager.cpp', after='void HandleManager::destroyObject(',
          old='\t\thandles.erase(it);\n', new='\t\thandles.erase(it);\n\t\tif (hObject == handleCounter) --handleCounter;\n'),
     dict(name='closesession-no-sessionobject-purge', rule='C11.R2', file='src/lib/SoftHSM.cpp', old='\tsessionObjectStore->sessionClosed(hSession);\n', new=''),
